@@ -10,6 +10,7 @@ use crate::scen_hist::{History, HistoryEnum};
 use crate::scen_hostile::{HostileCorpus, HostileMutate, HostileSweep};
 use crate::scen_life::Lifecycle;
 use crate::scen_misc::{Codec, HeaderFaults, HeaderRandom, Rejections};
+use crate::scen_sparse::SparseGiant;
 use crate::scen_spill::SpillUtil;
 use crate::scen_stream::{Fragmentation, SyncAsync};
 use crate::scen_write::{Canonical, CanonicalForeign, StartPos, StartPosDirs, TornWrite};
@@ -42,11 +43,11 @@ pub fn plan(prop: &str, tier: Tier) -> Option<Plan> {
             assumptions.push("64-bit content-hash collisions among generated contents are assumed not to occur".into());
             ("C10", "exploration", vec![b(Lifecycle { prop: "C10", huge_pct: 1, window_pct: 0 }, 6000, 200_000, t), b(History { prop: "C10" }, 20_000, 1_000_000, t), b(HistoryEnum { prop: "C10" }, 0, 0, t)])
         }
-        "C04" => ("C04", "exploration", vec![b(HistoryEnum { prop: "C04" }, 0, 0, t), b(History { prop: "C04" }, 40_000, 3_000_000, t)]),
+        "C04" => ("C04", "exploration", vec![b(HistoryEnum { prop: "C04" }, 0, 0, t), b(History { prop: "C04" }, 40_000, 3_000_000, t), b(SparseGiant { prop: "C04" }, 2000, 150_000, t)]),
         "C06" => ("C06", "exploration", vec![b(SpillUtil, 1800, 120_000, t), b(Lifecycle { prop: "C06", huge_pct: 30, window_pct: 40 }, 400, 20_000, t)]),
         "C03" => {
             assumptions.push("foreign archives come from the independent spec-level writer; each generated image is first accepted by the independent validator".into());
-            ("C03", "exploration", vec![b(Fixtures, 0, 0, t), b(ForeignOpen, 8000, 400_000, t)])
+            ("C03", "exploration", vec![b(Fixtures, 0, 0, t), b(ForeignOpen, 8000, 400_000, t), b(SparseGiant { prop: "C03" }, 1500, 100_000, t)])
         }
         "C11" => ("C11", "exploration", vec![b(PartialOpen, 4000, 300_000, t)]),
         "C20" => ("C20", "exploration", vec![b(LazyOpen, 8000, 400_000, t)]),
@@ -61,7 +62,7 @@ pub fn plan(prop: &str, tier: Tier) -> Option<Plan> {
         }
         "C16" => {
             assumptions.push("cross-process clause: a sample of runs is recomputed by a second pmtsim process with its own hash keys and natural iteration order".into());
-            ("C16", "exploration", vec![b(Canonical, 10_000, 500_000, t), b(CanonicalForeign, 3000, 200_000, t)])
+            ("C16", "exploration", vec![b(Canonical, 10_000, 500_000, t), b(CanonicalForeign, 3000, 200_000, t), b(SparseGiant { prop: "C16" }, 800, 60_000, t)])
         }
         "C17" => {
             assumptions.push("each write call is atomic (transfers are never split in this scenario), as the property states; the stream is fresh".into());
@@ -76,7 +77,7 @@ pub fn plan(prop: &str, tier: Tier) -> Option<Plan> {
             assumptions.push("gzip output is additionally decoded by CPython zlib on a sample when python3 is present".into());
             ("C14", "exploration", vec![b(Codec, 6000, 300_000, t)])
         }
-        "C19" => ("C19", "exploration", vec![b(Rejections, 12_000, 1_000_000, t), b(History { prop: "C19" }, 12_000, 1_000_000, t)]),
+        "C19" => ("C19", "exploration", vec![b(Rejections, 12_000, 1_000_000, t), b(History { prop: "C19" }, 12_000, 1_000_000, t), b(SparseGiant { prop: "C19" }, 1500, 100_000, t)]),
         "C08" => {
             assumptions.push("inputs whose directories declare more than 2^20 tiles/steps (measured by the iterative reference walker) are outside the claim and skipped (counted)".into());
             assumptions.push("a single allocation request above 8 GiB is refused by the harness allocator (deterministic stand-in for 'aborting on an absurd allocation')".into());
